@@ -506,26 +506,35 @@ def run(ctx):
     for mname in _fam_made:
         sys.modules.pop(mname, None)
     del _fam_made[:]
+    def grammar_stream(n, depth):
+        done = 0
+        while done < n and ctx.time_left() > 40:
+            batch = []
+            for _ in range(min(250, n - done)):
+                g = gen.G(ctx.rng, max_depth=depth)
+                ty = g.ty()
+                mixin = ctx.rng.random() < 0.6
+                cap, reg, classes, err = grammar_program(ctx, ty, mixin)
+                try:
+                    case = {"ty": ty, "mixin": mixin}
+                    if getattr(ctx, "case_extra", None):
+                        case = {**case, **ctx.case_extra}
+                    roots = [c for c in classes if dataclasses.is_dataclass(c)]
+                    if err is not None and not err.startswith(("NameError", "AttributeError", "SyntaxError")):
+                        ctx.bump("schema_rejected_by_library")
+                    finish_program(ctx, case, cap, classes, roots, err)
+                    batch.append((case, cap))
+                finally:
+                    reg.close()
+                done += 1
+            run_models(ctx, batch)
+
     n, depth = (700, 3) if quick else (12000, 4)
-    done = 0
-    while done < n and ctx.time_left() > 40:
-        batch = []
-        for _ in range(min(250, n - done)):
-            g = gen.G(ctx.rng, max_depth=depth)
-            ty = g.ty()
-            mixin = ctx.rng.random() < 0.6
-            cap, reg, classes, err = grammar_program(ctx, ty, mixin)
-            try:
-                case = {"ty": ty, "mixin": mixin}
-                roots = [c for c in classes if dataclasses.is_dataclass(c)]
-                if err is not None and not err.startswith(("NameError", "AttributeError", "SyntaxError")):
-                    ctx.bump("schema_rejected_by_library")
-                finish_program(ctx, case, cap, classes, roots, err)
-                batch.append((case, cap))
-            finally:
-                reg.close()
-            done += 1
-        run_models(ctx, batch)
+    grammar_stream(n, depth)
+    # the same generator with every annotation wrapped in Annotated / NewType / TypeAliasType
+    for mode in (True, "newtype", "typealias"):
+        with ctx.wrapped(mode):
+            grammar_stream(120 if quick else 2000, depth)
     ctx.assumptions += [
         "CPython name resolution: LOAD_GLOBAL looks in the function's globals, then builtins; top-level statements of an exec'd snippet also see the builder's __dict__ (locals)",
         "attribute chains are resolved statically on modules and classes only",
